@@ -669,7 +669,11 @@ pub fn execute(sc: &RegScenario, stats: &mut Stats) -> Outcome {
             }
             if ok {
                 if let Some(c) = &next_model {
-                    let shape = crate::graph::GraphModel::from_model(c).crash_shape();
+                    let gm = crate::graph::GraphModel::from_model(c);
+                    let shape = gm.crash_shape();
+                    if shape.is_none() && gm.has_component_cycle() {
+                        stats.inc("probe_component_cycle_rendered_in_process");
+                    }
                     if let Some(sh) = shape {
                         stats.inc(if sh.starts_with("include-inside") { "probe_f2_shape_state_reached" } else { "probe_f5_shape_state_reached" });
                         defer(sc, i, sh, &mut out);
@@ -765,6 +769,21 @@ pub fn execute(sc: &RegScenario, stats: &mut Stats) -> Outcome {
                 };
                 // ... and only while the delimiters are still the ones the sources were written
                 // for (a late set_delimiters succeeds on an empty registry: tags become text)
+                if k == "break-across-capture" && model.config.delims == sc.config.delims {
+                    let has = |src: &str| src.contains("for zzi in [1, 2]") && (src.contains("break") || src.contains("continue")) && src.contains("endfor");
+                    let there = match op {
+                        Op::AddRaw { source, .. } => has(source),
+                        Op::AddBatch { items } => items.iter().enumerate().any(|(ix, (n, src))| has(src) && !items[ix + 1..].iter().any(|(n2, _)| n2 == n)),
+                        _ => false,
+                    };
+                    if there {
+                        out.violations.push(Violation::new(
+                            "C07",
+                            "break-across-capture-accepted",
+                            format!("op {} ({}): a template with break/continue inside a capture inside its loop was accepted (the jump would skip EndCapture)", i, op.kind()),
+                        ));
+                    }
+                }
                 if k.starts_with("unknown-") && still_there && model.config.delims == sc.config.delims {
                     out.violations.push(Violation::new(
                         "C07",
